@@ -110,6 +110,17 @@ func suiteGrammar(o *Out, thorough bool, seed int64) {
 			}
 		}
 	}
+	// (c2) a postfix operator after every kind of separator (member access and calls must start on the line of their target)
+	for _, base := range []string{"a", "a.b", "a!.b", "f()", "f().b", "a.b.c", "(a).b", "[1].k", "f(x).b", "this.k", "a.b()", "1"} {
+		for _, op := range []string{".k", "!.k", "()", "(1)", "(1, 2)", "(x...)", ".k()", ".k.j"} {
+			for _, sep := range []string{"", " ", "\t", "\n", "\n ", " \n", "\n\t ", "\r\n", "\r", "\u2028", "\u2029\u00a0", "\u0085", "\u00a0"} {
+				for _, tail := range []string{"", " * 3", " ? 1 : 2"} {
+					emitParse(o, []byte(base+sep+op+tail), true)
+					emitParse(o, []byte("1 + "+base+sep+op+tail), true)
+				}
+			}
+		}
+	}
 	// (d) random grammar-directed programs with minimal parenthesisation
 	r := newRand(seed, "grammar")
 	g := &gen{r: r, idents: []string{"x", "y", "s"}, funcs: []string{"f", "g.h", "len"}, lits: []string{"1", "2.5", "'a'", "null", "true", "this", "ctx", "0x1f", "1e3", ".5"}}
@@ -278,7 +289,7 @@ var spacingLex = []string{"a", "b1", "$c", "_", "1", "2.5", "1.", ".5", "1e3", "
 	"(", ")", "[", "]", ",", ".", "!.", "...", "=", "?", ":", "+", "-", "!", "!!", "~", "*", "/", "%", "<", "<=", ">", ">=",
 	"==", "===", "!=", "!==", "&&", "||", "??", "&", "|", "^", "é", "truex"}
 
-var separators = []string{"", " ", "\t", "\u00a0", "\n", "\u2028", "  \t", "\r\n", "\u0085"}
+var separators = []string{"", " ", "\t", "\u00a0", "\n", "\u2028", "  \t", "\r\n", "\u0085", "\n ", "\n\t", " \n ", "\r\n  ", "\u2028\u00a0"}
 
 func suiteSpacing(o *Out, thorough bool, seed int64) {
 	r := newRand(seed, "spacing")
